@@ -137,8 +137,28 @@ def type_id_post(C):
     return [('column-type_id-prints-the-global-id-of-the-cell-type', C.ret == f(z3.If(ct != 0, o.f(ct, 'cell_type_parameters.global_type_id_'), -1), C.e.models.str_id('%d')))]
 
 
+# ---- mesh_writer::write: every cell is compacted (rebase) before its mesh is written: the files list exactly the live faces / nodes -------------------------
+def rebase_logged():
+    def on_call(C, st):
+        from values import GuardedLog
+        st.ghost['rebased'] = st.ghost.get('rebased', GuardedLog()).add((C.this if not hasattr(C.this, 'ref') else C.this.ref,))
+    return Contract('cell::rebase', PROP, frame=lambda C: [('*', None)], on_call=on_call, assumed=True, name='cell::rebase (any effect; receiver recorded)')
+
+
+def post_rebase_wrapper(C):
+    if C.outcome not in (None, 'ret', 'end'): return []
+    c = C.val('c').ref
+    log = C.post_state.ghost.get('rebased')
+    entries = log.entries if log is not None else []
+    return [('every-cell-handed-to-the-writer-is-compacted-whatever-its-kind', z3.Or(*[z3.And(gd, r == c) for (gd, (r,)) in entries]) if entries else z3.BoolVal(False)),
+            ('compacted-once', z3.BoolVal(len(entries) == 1))]
+
+
+
 def build(reg):
     reg.add(Contract('solver::save_mesh', PROP, pre=pre_save, post=post_save, use=[writer_contract()], safety={'narrowing'}))
+    reg.add(Contract('mesh_writer::write', PROP, pre=lambda C: [('cell-non-null', C.val('c').ref > 0)], post=post_rebase_wrapper, lambda_ordinal=0, use=[rebase_logged()],
+                     name='mesh_writer::write::<per-cell wrapper: rebase>'))
     hv = [havoc('solver::save_mesh', 'save_calls'), havoc('cell_divider::run'), havoc('cell::update_face_types'), havoc('local_mesh_refiner::refine_meshes'),
           havoc('contact_model_abstract::run'), havoc('cell::special_polarization_update'), havoc('cell::apply_internal_forces'),
           havoc('abstract_statistics_writer::write_data', 'stat_writes'), havoc('time_integration_scheme::update_nodes_positions', 'integration_calls')]
